@@ -250,3 +250,15 @@ Theorem C12_source_decrement_is_the_model : forall S B it,
   = match it_dec S B it with GOk it' => Some [i_bl it; i_idx it'] | _ => None end.
 Proof. exact src_it_dec_is_model. Qed.
 Print Assumptions C12_source_decrement_is_the_model.
+
+(* the six comparison operators compare the indices mathematically *)
+Theorem C12_source_order_matches_indices : forall S B x y,
+  is_uns S = true -> is_uns B = true -> in_range S (i_idx x) = true -> in_range S (i_idx y) = true ->
+  effs_eval [("lhs.index", i_idx x); ("rhs.index", i_idx y)] (src_it_cmp CEq S B) = Some [zb (it_eq x y)] /\
+  effs_eval [("lhs.index", i_idx x); ("rhs.index", i_idx y)] (src_it_cmp CLt S B) = Some [zb (it_lt x y)] /\
+  effs_eval [("lhs.index", i_idx x); ("rhs.index", i_idx y)] (src_it_cmp CLe S B) = Some [zb (it_le x y)] /\
+  effs_eval [("lhs.index", i_idx x); ("rhs.index", i_idx y)] (src_it_cmp CNe S B) = Some [zb (negb (it_eq x y))] /\
+  effs_eval [("lhs.index", i_idx x); ("rhs.index", i_idx y)] (src_it_cmp CGt S B) = Some [zb (it_lt y x)] /\
+  effs_eval [("lhs.index", i_idx x); ("rhs.index", i_idx y)] (src_it_cmp CGe S B) = Some [zb (it_le y x)].
+Proof. exact src_it_order_matches_indices. Qed.
+Print Assumptions C12_source_order_matches_indices.
